@@ -104,14 +104,15 @@ class Injector:
                     return Proxy(real_open(file, mode, *a, **kw), inj.fdmap[file], inj)
                 return real_open(file, mode, *a, **kw)
             if inj.inside(file) and any(c in mode for c in "wax+"):
-                op = "open_trunc" if "w" in mode else "open_excl" if "x" in mode else "open_append"
+                op = "open_trunc" if "w" in mode else "open_excl" if "x" in mode else "open_append" if "a" in mode else "open_keep"
                 inj.tick(op, file)
                 return Proxy(real_open(file, mode, *a, **kw), file, inj)
             return real_open(file, mode, *a, **kw)
 
         def my_os_open(path, flags, *a, **kw):
             if inj.inside(path) and flags & (os.O_WRONLY | os.O_RDWR):
-                op = "open_excl" if flags & os.O_EXCL else "open_trunc" if flags & os.O_TRUNC else "open_append"
+                op = ("open_excl" if flags & os.O_EXCL else "open_trunc" if flags & os.O_TRUNC else
+                      "open_append" if flags & os.O_APPEND else "open_keep")     # open_keep: existing content stays, writing starts at offset 0
                 inj.tick(op, path)
                 fd = real_os_open(path, flags, *a, **kw)
                 inj.fdmap[fd] = path
@@ -221,6 +222,7 @@ def main():
                 old_bytes = (root / "data.json").read_bytes() if h > 0 else None
                 new_name = old_names[0] if repeat else "newrun"
                 out = make_output(rng, rows, cols, new_name)
+                follow_out = make_output(rng, 1, 1, "followup")
                 # expected content after a complete save (computed on a scratch copy by the real code, uninterrupted)
                 scratch = base / "scratch"
                 shutil.rmtree(scratch, ignore_errors=True)
@@ -246,6 +248,19 @@ def main():
                         total_runs += 1
                         ev = {"k": k, "kind": kind, "rc": rc, "op": program[k - 1]["op"] if k <= nops else "none"}
                         ev.update(classify(root / "data.json", old_bytes, expected_new, old_names))
+                        ev.update({"follow": -1, "follow_parses": -1, "follow_preserved": -1})
+                        # a normal, smaller save AFTER the interrupted one (whatever the interrupted one left behind stays in place)
+                        if ev["cls"] in ("old", "new") and (nops <= 60 or k % 5 == 1 or k >= nops - 3):
+                            before = json.loads((root / "data.json").read_text()) if (root / "data.json").exists() else {}
+                            rc2 = run_child(root, -1, "none", "followup", follow_out, None)
+                            try:
+                                got = json.loads((root / "data.json").read_text())
+                                ev["follow_parses"] = 1
+                                ev["follow_preserved"] = int(all(nm in got and json.dumps(got[nm], sort_keys=True) == json.dumps(before[nm], sort_keys=True) for nm in before))
+                                ev["follow"] = int("followup" in got and rc2 == 0)
+                            except Exception:  # noqa: BLE001
+                                ev["follow_parses"], ev["follow_preserved"], ev["follow"] = 0, 0, 0
+                            total_runs += 1
                         events.append(ev)
                 traces.append({"tid": tid, "had_old": int(h > 0), "earlier_runs": h, "size": size, "repeat_name": repeat, "nops": nops,
                                "program": program, "complete_rc": rc, "events": events})
